@@ -1,4 +1,7 @@
-(* Model/TimeMacro.v — `TimeMacroFinder::find_time_macros` of src/util.rs, literally.
+(* Model/TimeMacro.v — `TimeMacroFinder::find_time_macros` of src/util.rs, literally
+   (the code AFTER the `fix:` commit "time macro scan no longer reports a macro that is split by unrelated
+   small reads": in the branch for later reads the overlap buffer is no longer searched after a small read, and
+   before a full read only if no small read lies in between; witness of the old behaviour: corpus/C04/timemacro.sx).
 
    The Rust struct keeps a 2*MAX_HAYSTACK_LEN byte `overlap_buffer` that is only ever read or written as its
    left half `[..MAX]` and its right half `[MAX..]` (or as a whole, = left ++ right); the model keeps the two
@@ -80,12 +83,13 @@ Definition find_time_macros (f : finder) (visit : bytes) : finder :=
   else
     if Nat.ltb n M then
       let p := if nonempty (psr f) then psr f ++ visit else ob_l f ++ visit in
-      let f1 := set_ob (set_psr f p) (ob_l f) (visit ++ zeros (M - n)) in
-      let f2 := find_macros f1 (psr f1) in
-      find_macros f2 (ob_l f2 ++ ob_r f2)
+      let f1 := set_psr f p in
+      find_macros f1 (psr f1)
     else
-      let f1 := set_ob f (ob_l f) (firstn M visit) in
-      let f2 := find_macros f1 (ob_l f1 ++ ob_r f1) in
+      (* the overlap buffer is consulted only when no small read separates its two halves *)
+      let f2 := if nonempty (psr f) then f
+                else let f1 := set_ob f (ob_l f) (firstn M visit) in
+                     find_macros f1 (ob_l f1 ++ ob_r f1) in
       let f3 := set_ob f2 (lastn M visit) (zeros M) in
       let f4 := find_macros f3 (ob_l f3 ++ ob_r f3) in
       finish_full f4 visit.
